@@ -10,6 +10,7 @@ package drivers
 
 import (
 	"context"
+	"errors"
 	"encoding/binary"
 	"encoding/json"
 	"fmt"
@@ -466,6 +467,11 @@ func freeLLMNRClient(c *h.Ctx, lg *evLog, queries int, seed int64) error {
 			defer wg.Done()
 			m, err := cli.Query(context.Background(), fmt.Sprintf("query%d", q), 1)
 			if err != nil {
+				// the only way a query for a valid name ends without a response is its timeout: an error of another kind means
+				// the query never left (or was abandoned although it was sent)
+				if !strings.Contains(err.Error(), "timeout") && !errors.Is(err, context.DeadlineExceeded) {
+					c.Fail("llmnr.Client.Query", "error-on-valid-query", fmt.Sprintf("Query(%q, A) on an open client: %v", fmt.Sprintf("query%d", q), err), map[string]interface{}{"queries_in_flight": queries})
+				}
 				lg.log(map[string]interface{}{"op": "qtimeout", "q": q})
 				return
 			}
@@ -480,6 +486,11 @@ func freeLLMNRClient(c *h.Ctx, lg *evLog, queries int, seed int64) error {
 		}
 	}
 	wg.Wait()
+	rmu.Lock()
+	if len(seen) == 0 && queries > 0 {
+		c.Fail("llmnr.Client.Query", "no-query-left-the-client", fmt.Sprintf("%d queries were made and the responder on the query address saw none of them", queries), nil)
+	}
+	rmu.Unlock()
 	// a response handed to a Query belongs to that query: it must still carry the same answer after the client has received
 	// the datagrams of the other queries (the receive loop reuses one buffer)
 	time.Sleep(20 * time.Millisecond)
